@@ -25,7 +25,7 @@ fn req(op: &str, t: &IRNode, db: &[(String, Vec<Tuple>)]) -> String {
 pub fn gen(ctx: &mut Ctx) -> Vec<String> {
     let mut out = vec![];
     // 1. shapes aimed at single rules, on set and bag databases
-    for k in 0..16 { for rep in 0..ctx.budget(3, 10) {
+    for k in 0..19 { for rep in 0..ctx.budget(4, 10) {
         let t = targeted(ctx, k); let db = gen_db(ctx, false, rep % 2 == 1, 5);
         out.push(req("c05.eval", &t, &db));
         for p in ["opt", "jp", "bs"] { out.push(req(&format!("c05.pass {p}"), &t, &db)); }
